@@ -70,6 +70,13 @@ Theorem C01_rest_roundtrip : forall doc ps ret,
 Proof. exact rest_roundtrip. Qed.
 Print Assumptions C01_rest_roundtrip.
 
+(* ... also for a description that has a return entry and no parameter *)
+Theorem C01_rest_roundtrip_return_only : forall doc r,
+  clean doc = true -> entry_ok r = true ->
+  parse_rest (emit_rest true doc [] (Some r)) = {| p_doc := doc; p_params := []; p_ret := Some r |}.
+Proof. exact rest_roundtrip_ret_only. Qed.
+Print Assumptions C01_rest_roundtrip_return_only.
+
 (* with emit_types off the text is the one of the description without its types, and reads back as that description
    (every parameter must then carry a description: one that has only a type is not written at all) *)
 Theorem C01_rest_roundtrip_no_types : forall doc ps ret,
